@@ -52,6 +52,20 @@ func attrString(n, seed int) string {
 	return string(b)
 }
 
+// attrText is attrString for attribute values: one seed in four draws from an alphabet with 2-, 3- and 4-byte UTF-8
+// characters (n counts characters), so that byte length and character count differ.
+func attrText(n, seed int) string {
+	if seed%4 != 0 {
+		return attrString(n, seed)
+	}
+	alphabet := []rune("aZ 0éüß名前データ😀–")
+	r := make([]rune, n)
+	for i := range r {
+		r[i] = alphabet[mix(seed, i)%uint64(len(alphabet))]
+	}
+	return string(r)
+}
+
 // Go returns the Go value for WriteAttribute and the modelled stored form (nil for invalid values).
 func (a AttrVal) Go() (any, *MAttr) {
 	bits := func(i int) uint64 { return rawBits(a.Seed, i, 8, ModeMixed) }
@@ -84,7 +98,7 @@ func (a AttrVal) Go() (any, *MAttr) {
 		v := math.Float64frombits(bits(0))
 		return v, &MAttr{1, 8, false, []uint64{1}, le(math.Float64bits(v), 8), a.Kind}
 	case "str":
-		s := attrString(a.N, a.Seed)
+		s := attrText(a.N, a.Seed)
 		return s, &MAttr{3, uint32(len(s) + 1), false, []uint64{1}, append([]byte(s), 0), a.Kind}
 	case "[]i32":
 		if a.N < 1 {
